@@ -33,9 +33,19 @@ pub fn errs_to_strings(errs: &[Box<dyn ReportableError>]) -> Vec<String> {
     errs.iter().map(|e| e.get_message().to_string()).collect()
 }
 
+thread_local! {
+    /// Source path given to the compiler (needed by programs that `include` or `use` files).
+    pub static SRC_PATH: std::cell::RefCell<Option<std::path::PathBuf>> = const { std::cell::RefCell::new(None) };
+}
+
+pub fn set_src_path(p: Option<&str>) {
+    SRC_PATH.with(|s| *s.borrow_mut() = p.map(std::path::PathBuf::from));
+}
+
 fn new_ctx(driver: &mut LocalBufferDriver, with_scheduler: bool) -> ExecContext {
     let audiodriverplug: Box<dyn Plugin> = Box::new(driver.get_as_plugin());
-    let mut ctx = ExecContext::new([audiodriverplug].into_iter(), None, Config::default());
+    let path = SRC_PATH.with(|s| s.borrow().clone());
+    let mut ctx = ExecContext::new([audiodriverplug].into_iter(), path, Config::default());
     if with_scheduler {
         ctx.add_system_plugin(mimium_scheduler::get_default_scheduler_plugin());
     }
